@@ -16,12 +16,12 @@ import tempfile
 from codebasin import preprocessor
 from codebasin.platform import Platform
 
-OBJ_BODIES = ["1", "X", "Y + 1", "(X)", "F(2)", "", "X ## 1", "p q", "(1 + E())", "F()"]
+OBJ_BODIES = ["1", "X", "Y + 1", "(X)", "F(2)", "", "X ## 1", "p q", "(1 + E())", "F()", "F", "1 + F", "2 * G", "E"]
 FUN_DEFS = [("E", "()", ["1", "", "X"]),
             ("F", "(a)", ["a", "a + 1", "a * G", "#a", "a ## 1", "x ## a", "(a)", "F(a)", "G(a)", "a a", "", "X a", "(a + E())", "V(a)"]),
             ("G", "(a, b)", ["a b", "a + b", "b a", "a ## b", "#a #b", "F(a) b", "a", "G(a, b)", "F(b)", "(a, b)"]),
             ("V", "(a, ...)", ["a __VA_ARGS__", "#__VA_ARGS__", "F(__VA_ARGS__)", "a"])]
-ARGS1 = ["2", "x y", "(1, 2)", "", "F(3)", "X", "\"s t\"", "  p  q  "]
+ARGS1 = ["2", "x y", "(1, 2)", "", "F(3)", "X", "\"s t\"", "  p  q  ", "7 * F", "F", "E", "3 + E"]
 ARGS2 = [("1", "2"), ("x", ""), ("", "y"), ("F(1)", "G(2, 3)"), ("(p, q)", "c"), ("X", "X")]
 
 
@@ -45,6 +45,9 @@ def invocations(rng):
     return rng.choice([f"F({a})", f"G({b[0]}, {b[1]})", "X", "Y", f"F(F({a}))", f"F({a})({a})", f"V({a}, {b[0]}, {b[1]})", f"V({a})",
                        f"X F({a}) Y", f"G(F({a}), X)", "F", f"F ({a})", f"G({a}, G({b[0]}, {b[1]}))",
                        # the same macro used twice in one directive (state left behind by the first use)
+                       # a function-like macro name that ends a replacement / an argument and finds its "(" in the enclosing text
+                       f"F({a})({b[0]}, {b[1]})", f"X({a})", f"X ({b[0]}, {b[1]})", f"Y({a})", f"F({a})()", f"G({b[0]}, {b[1]})({a})",
+                       f"V({a})({a})", f"F(F)({a})", f"X({a}) X({a})",
                        f"F({a}) + F({b[0]})", "X * X", f"G({b[0]}, {b[1]}) G({b[1]}, {b[0]})", "E() E()", f"F() F({a})", "Y + Y"])
 
 
